@@ -22,7 +22,7 @@ from fractions import Fraction
 import lib, troute
 
 MOD = "ImathVerif.Props.C17"
-LINK_IMPORTS = ["ImathVerif.Lemmas.FunLemmas", "ImathVerif.Lemmas.RootsLemmas", "ImathVerif.Gen.C17Fun", "ImathVerif.Gen.C17Roots"]
+LINK_IMPORTS = ["ImathVerif.Lemmas.FunLemmas", "ImathVerif.Lemmas.RootsLemmas", "ImathVerif.Gen.C17Fun", "ImathVerif.Gen.C17Roots", "ImathVerif.Gen.C17Color"]
 LINK_OPENS = ["ImathVerif", "ImathVerif.Fun", "ImathVerif.Roots"]
 DRV = os.path.join(lib.LEAN, ".lake", "build", "bin", "drv_fun")
 SCR = os.path.join(lib.BUILD, "scratch", "c17run")
@@ -50,6 +50,8 @@ REQUIRED = [
     "ulerp_unsigned", "succ_pred_no_value_between", "hsv_rgb_ranges",
     "color4_agrees_with_vec3", "hsv2rgb_rgb2hsv", "rgb2hsv_hsv2rgb", "integer_wrappers_scale_by_max",
     "rgb2packed_packed2rgb_exact", "color4_int_alpha_fixed",
+    # T-route tie of the colour bodies: regenerated tree (ImathColorAlgo.cpp at double := Sym) = hand model
+    "gen_hsv2rgbV3", "gen_hsv2rgbC4", "gen_rgb2hsvV3", "gen_rgb2hsvC4", "gen_hsv2rgb_rgb2hsv",
 ]
 
 INT_MIN, INT_MAX = -2 ** 31, 2 ** 31 - 1
@@ -1570,6 +1572,55 @@ SOLVER_FN = {"gen_solveQuadratic": ("Roots.solveQuadratic", "slots2", "solveQuad
              "gen_solveCubic": ("Roots.solveCubic", "slots3", "solveCubic", 4)}
 
 
+COLOUR_LINK = {"gen_hsv2rgbV3": ("Color.hsv2rgbV3", "hsv2rgbV3", 3, True), "gen_hsv2rgbC4": ("Color.hsv2rgbC4", "hsv2rgbC4", 4, True),
+               "gen_rgb2hsvV3": ("Color.rgb2hsvV3", "rgb2hsvV3", 3, False), "gen_rgb2hsvC4": ("Color.rgb2hsvC4", "rgb2hsvC4", 4, False),
+               "gen_hsv2rgb_rgb2hsv": ("Color.rgb2hsvV3", "rgb2hsvV3", 3, False)}
+
+
+def colour_link_search(chk, symc, name):
+    """Broken gen_hsv2rgb* / gen_rgb2hsv* theorem: a concrete colour on which the tree regenerated from the current ImathColorAlgo.cpp and
+    the hand model differ (both evaluated in Lean at Rat, floor = Rat.floor), replayed on the real code at double."""
+    gfn, mfn, n, fl = COLOUR_LINK[name]
+    hues = [Fraction(k, 12) for k in range(-2, 15)] + [Fraction(5, 7), Fraction(1, 100)]
+    oth = [Fraction(0), Fraction(1, 2), Fraction(1), Fraction(3, 4), Fraction(1, 4), Fraction(-1, 2)]
+    if fl:
+        cases = [(h, sv, v) for h in hues for sv in oth[:5] for v in oth[1:5]]
+    else:
+        cases = [(a, b, c) for a in oth for b in oth for c in oth]
+    if name == "gen_hsv2rgb_rgb2hsv":
+        cases = [c for c in cases if min(c) >= 0]
+    r = lambda q: "(%d / %d : Rat)" % (q.numerator, q.denominator)
+    flq = "(fun x : Rat => ((Rat.floor x : Int) : Rat))"
+    lines = ["import ImathVerif.Model.ColorAlgo", "import ImathVerif.Gen.C17Color", "open ImathVerif"]
+    for i, c in enumerate(cases):
+        comps = list(c) + ([Fraction(1, 3)] if n == 4 else [])
+        ga = "(⟨%s⟩ : %s Rat)" % (", ".join(r(q) for q in comps), "V3" if n == 3 else "C4")
+        ma = "(⟨%s⟩ : ColorAlgo.%s Rat)" % (", ".join(r(q) for q in comps), "V3" if n == 3 else "C4")
+        f = ["x", "y", "z"] if n == 3 else ["r", "g", "b", "a"]
+        if name == "gen_hsv2rgb_rgb2hsv":
+            g = "Gen.Color.hsv2rgbV3 %s (Gen.Color.rgb2hsvV3 %s)" % (flq, ga)
+            cond = " && ".join("decide ((%s).%s = %s)" % (g, ff, r(q)) for ff, q in zip(f, comps))
+        else:
+            g = "Gen.%s %s%s" % (gfn, (flq + " ") if fl else "", ga)
+            m = "ColorAlgo.%s %s%s" % (mfn, "Rat.floor " if fl else "", ma)
+            cond = " && ".join("decide ((%s).%s = (%s).%s)" % (g, ff, m, ff) for ff in f)
+        lines.append('#eval IO.println ("CL %d " ++ toString (%s))' % (i, cond))
+    rc, out = lib.lean_run_file("\n".join(lines) + "\n", timeout=600, name="colourlink")
+    for m in re.finditer(r"CL (\d+) false", out):
+        c = cases[int(m.group(1))]
+        comps = [float(q) for q in c] + ([1.0 / 3] if n == 4 else [])
+        rcr, outr = lib.sh([symc, "real", gfn] + ["%r" % x for x in comps], timeout=120)
+        return {"theorem": name, "found_failing_input": True,
+                "failing_input": {"components": [str(q) for q in c], "as_double": comps},
+                "what": "the tree regenerated from the current ImathColorAlgo.cpp and the hand model (for which the property's theorems are proved) "
+                        "differ on this colour (exact rationals, floor = Rat.floor)",
+                "real_code_at_double": outr.strip().split("\n")[-1] if outr.strip() else None,
+                "replay_cmd": "%s real %s %s" % (symc, gfn, " ".join("%r" % x for x in comps)),
+                "key": "theorem:%s" % name}
+    return None
+
+
+
 def link_search(chk, sym, name):
     """A concrete input on which the regenerated definition and the hand model differ (evaluated at Rat in Lean), replayed on the real code."""
     if name not in SOLVER_FN:
@@ -1686,6 +1737,28 @@ def run(chk):
                                      "(emitted text = hand model) together with the float correspondence hand model = real code")
         chk.extra["tv_note"] = ("the two cubic entries are compared with a tolerance (1e-12 double / 1e-5 float, well-scaled inputs) on the complex arm: "
                                 "std::complex<double> divides with __divdc3, the generic template instantiated at T = Sym with the textbook formula")
+    # ---- T-route for the NON-template colour bodies: ImathColorAlgo.cpp compiled with `double` := Sym (sym_c17c.cpp) -> Gen/C17Color.lean;
+    #      theorems gen_hsv2rgbV3/C4, gen_rgb2hsvV3/C4 prove the regenerated trees equal to the hand model Model/ColorAlgo.lean
+    binsc = troute.build_extractors(chk, [dict(name="sym_c17c", source="sym/sym_c17c.cpp")])
+    symc = binsc.get("sym_c17c")
+    if symc:
+        indexc, _ = troute.regenerate(chk, symc, "c17c")
+        troute.tv(chk, symc, "c17c", 4000 if chk.thorough else 800)
+        phc = getattr(chk, "tv_paths", {}).get("c17c", {})
+        # feasible leaves: hsv2rgb 8 of 14 (hue == 1 forces floor (0) = 0: 6 infeasible), rgb2hsv at least 19 of 64 (most order combinations
+        # of the two nested ?: selections are contradictory)
+        need = {"Color.hsv2rgbV3": 8, "Color.hsv2rgbC4": 8, "Color.rgb2hsvV3": 19, "Color.rgb2hsvC4": 19}
+        short = sorted(k for k, v in need.items() if phc.get(k, (0, 0))[0] < v)
+        chk.oblige("tv:c17c: the validation inputs reach every feasible leaf of hsv2rgb_d (8 of 14) and >= 19 of the 64 leaves of rgb2hsv_d "
+                   "(real ImathColorAlgo.cpp at double vs the tree extracted from the same file at double := Sym)", "translation-validation",
+                   bool(phc) and not short, short or None)
+        if phc and short:
+            chk.fail("tv:c17c: leaves", "tv:c17c:leaves-not-reached", "translator validation reached too few leaves of: " + ", ".join(short),
+                     {"leaves(hit,total)": {k: phc.get(k) for k in short}, "needed": {k: need[k] for k in short}}, False)
+        troute.lean_tv(chk, symc, "c17c", indexc, n=12 if chk.thorough else 4, extra_args=["--den", "12"],
+                       param_stubs={"floorR": "(fun x : Rat => ((Rat.floor x : Int) : Rat))"})
+        chk.extra["c17c_note"] = ("ImathColorAlgo.cpp is included twice by harness/sym/sym_c17c.cpp: as it stands (reference) and with the token "
+                                  "`double` defined as the symbolic scalar; `int (std::floor (hue))` is explored as floorR hue = 0 ... 5 / other")
     okd = lib.lake_build(["drv_fun"])
     chk.oblige("build:drv_fun", "build", okd[0] == 0, None if okd[0] == 0 else okd[1][-800:])
     srcs = ["corr/fun_corr.cpp", os.path.join(lib.REPO, "src/Imath/ImathFun.cpp"), os.path.join(lib.REPO, "src/Imath/ImathColorAlgo.cpp")]
@@ -1722,6 +1795,8 @@ def run(chk):
         chk.sample({"call": "rgb2packed(packed2rgb(0x80ff0a01)) (C4f)", "result": "0x80ff0a01"})
 
     def search(name):
+        if name in COLOUR_LINK:
+            return colour_link_search(chk, symc, name) if symc else None
         if name.startswith("gen_") and sym:
             rep = link_search(chk, sym, name)
             if rep:
